@@ -14,6 +14,10 @@ def main (args : List String) : IO UInt32 := do
   | ["model"] =>
     modelLoop (← IO.getStdin) (← IO.getStdout) {}
     return 0
+  | ["model", "--soak"] =>
+    -- the harness keeps executing calls on a handle that has panicked (C07): follow it with the total model
+    modelLoop (← IO.getStdin) (← IO.getStdout) { soak := true }
+    return 0
   | ["model", "--concat-repaired"] =>
     modelLoop (← IO.getStdin) (← IO.getStdout) { cfg := { concatRepaired := true } }
     return 0
